@@ -178,6 +178,18 @@ def gen_history(rng, f, ch, ty, lowzero, nops, depth_seed, route, special=None):
         A.rpos = A.wpos = n
         nops = 0
         start_empty = None
+    elif special == "rw_idle":
+        # a file re-opened read/write and closed again with nothing written (twice): length, frame count and content must survive
+        # (VOC appended a second terminator byte per open/close before the repair of KF-VOC-RDWR-IDLE)
+        h = opn("w")
+        do_write(h, rng.choice([1, 3, 4, 7]))
+        emit("close %s" % h)
+        h = opn("rw")
+        emit("close %s" % h)
+        h = opn("rw")
+        do_read(h)
+        nops = 0
+        start_empty = None
     else:
         start_empty = rng.random() < 0.5
     if start_empty is None:
@@ -284,6 +296,8 @@ def run(ctx):
         ty = sorted(loss)[0]
         script, expect = gen_history(rng, f, 1, ty, loss[ty], 0, 0, "fd", special="trunc_tail")
         jobs.append((f, 1, ty, "fd", script, expect))
+        script, expect = gen_history(rng, f, 1, ty, loss[ty], 0, 0, "fd", special="rw_idle")
+        jobs.append((f, 1, ty, "fd", script, expect))
     out = ctx.batch([("%s-%d" % (j[0].name, i), j[4]) for i, j in enumerate(jobs)], clean=True)
     # THE PREDICATE: Sf.Abs.check (lean/SfModel/Abs.lean, the abstract file of the statement in Lean) judges every history from the
     # closed empty store on; the generator's own expectations (AbsFile above) run beside it as a cross-check
@@ -340,14 +354,6 @@ def run(ctx):
             prob = (k, "Lean predicate Sf.Abs.check: clause `%s` fails: %s%s" % (leantag, text.strip(), (" | generator's expectation: " + pyprob[1]) if pyprob and pyprob[0] == k else ""))
         elif pyprob is not None:
             prob = (pyprob[0], "generator's expectation only (Sf.Abs.check accepted the history): " + pyprob[1])
-        if prob and f.major == 0x08 and leantag is not None and kf_still.get("KF-VOC-RDWR-TRUNCATE") and any(l.startswith("cmd ") and " 1080 " in l for l in sl[:prob[0] + 1]) \
-                and (leantag in ("open", "reopen-frames") or (sl[prob[0]].startswith("r ") and prob[0] == len(sl) - 2)):
-            kf_hits["KF-VOC-RDWR-TRUNCATE"] = kf_hits.get("KF-VOC-RDWR-TRUNCATE", 0) + 1
-            prob = None      # class: VOC + truncate in the history; signature (Lean clause): the next open fails / reports the old count / reads the old data
-        if prob and f.major == 0x08 and kf_still.get("KF-VOC-RDWR-TRUNCATE") and any(l.startswith("cmd ") and " 1080 " in l for l in sl[:prob[0] + 1]) \
-                and ("open for r failed" in prob[1] or "open (r" in prob[1] or "open (rw" in prob[1] or "a fresh open reads" in prob[1] or "open for rw failed" in prob[1]):
-            kf_hits["KF-VOC-RDWR-TRUNCATE"] = kf_hits.get("KF-VOC-RDWR-TRUNCATE", 0) + 1
-            prob = None      # class: VOC + truncate in the history; signature: the next open fails or reports the old count
         if prob:
             key = f.name.split("-")[0]
             if key in reported or len(reported) >= 6:
